@@ -706,6 +706,9 @@ func (e *Env) call(n *ECall) TVal {
 		if v.ty.sort == "Slice" {
 			r = app("s-arr", v.term)
 		}
+		if v.ty.sort == "Iface" {
+			r = app("i-val", v.term)
+		}
 		return TVal{term: app(">=", app("rid", r), e.old.next), ty: boolTy()}
 	case "addr": // addr(s, i): reference of slice element i
 		v := e.eval(n.Args[0])
